@@ -347,10 +347,11 @@ def run_task(task, R, oracle='wellformed'):
     stats = None
     for taken, (sampler, mol, err), stats in own.explore_choices(run, max_paths=task['cap']):
         inp = {'kind': 'sampler', 'config': task['config'], 'target': task['target'], 'path': taken}
-        v = judge(c, inp, sampler, mol, err, ch, oracle)
         npaths += 1
-        if npaths <= task['double'] and mol is not None:
-            # the same schedule must give the same observation before any verdict on it is believed
+        if (npaths == 1 or npaths <= task['double']) and mol is not None:
+            # the same schedule must give the same observation before any verdict on it is believed (and before the
+            # oracle, whose isomorphism tests are only cheap on the molecules a correct sampler returns)
+            points1 = list(ch.points)
             ch2 = own.Chooser()
             s2, m2, e2 = run_path(c, task['target'], taken, ch2)
             if e2 is not None or dump(m2) != dump(mol) or ch2.taken != taken:
@@ -361,6 +362,7 @@ def run_task(task, R, oracle='wellformed'):
                 R.cap('config %s target %s: exploration stopped at the first non-reproducible execution' % (task['config'], task['target']))
                 stats = None
                 break
+        v = judge(c, inp, sampler, mol, err, ch, oracle)
         R.record(inp, v)
     if stats:
         R.states += stats['points'] + 1
